@@ -16,6 +16,7 @@ import (
 	"seehuhn.de/go/sfnt/cff"
 	"seehuhn.de/go/sfnt/glyf"
 	"seehuhn.de/go/sfnt/head"
+	"seehuhn.de/go/sfnt/opentype/gtab"
 )
 
 // isCanonical returns "" when f must come back exactly, else the reason why
@@ -120,6 +121,14 @@ func isCanonical(f *sfnt.Font) string {
 	if f.Gsub == nil && !f.IsFixedPitch() {
 		if best, _ := f.CMapTable.GetBest(); best != nil && sfnt.VerifC01StandardLigatures(best) != nil {
 			return "no GSUB but ligature glyphs in the cmap"
+		}
+	}
+	// a layout table is written with offset 0 for a nil list and with an
+	// (empty) list for a non-nil one; gtab.Read returns a non-nil script list
+	// in every case, so only such a value is reproduced byte for byte
+	for _, g := range []*gtab.Info{f.Gsub, f.Gpos} {
+		if g != nil && g.ScriptList == nil {
+			return "layout table with a nil script list (read back as an empty one)"
 		}
 	}
 	if f.CMapTable != nil && len(f.CMapTable) == 0 {
